@@ -101,6 +101,144 @@ impl Write for Sink {
     }
 }
 
+
+pub struct Counters {
+    pub fault_runs: AtomicU64,
+    pub positions: AtomicU64,
+    pub nontriv: AtomicU64,
+}
+
+/// One (template, data) pair: the fault-free streaming run, the buffering render, the never-failing
+/// chunked sinks, and then every fault at every write call of the fault-free run.
+#[allow(clippy::too_many_arguments)]
+fn enumerate_faults(report: &Report, c: &Counters, i: u64, textp: &str, tmpl: &liquid::Template, d: &V, global: &liquid::Object, partials: &[(String, String)], all_offsets: bool) {
+        let w = |fault: Fault| json!({"kind":"fault","template":textp,"data":d.to_json(),"partials":partials,"fault":format!("{fault:?}")});
+        // fault-free streaming run
+        let mut sink = Sink::new(Fault::None);
+        let r = guard(|| tmpl.render_to(&mut sink, global).map_err(|e| e.to_string()));
+        report.eval();
+        let free_ok = match r {
+            Err(pi) => {
+                report.violation(&format!("C10|{}", pi.sig()), i, w(Fault::None), pi.describe());
+                return;
+            }
+            Ok(r) => r.is_ok(),
+        };
+        let b = sink.accepted.clone();
+        let offered = sink.offered.clone();
+        let wcalls = sink.calls;
+        if std::str::from_utf8(&b).is_err() {
+            report.violation("C10|streamed-bytes-not-utf8", i, w(Fault::None), "bytes written are not UTF-8".into());
+        }
+        // buffering render must agree with the stream
+        let rs = guard(|| tmpl.render(global).map_err(|e| e.to_string()));
+        match rs {
+            Ok(Ok(s)) => {
+                if !free_ok || s.as_bytes() != b.as_slice() {
+                    report.violation("C10|stream-differs-from-buffered-render", i, w(Fault::None), format!("render() = {s:?}, streamed = {:?} (ok={free_ok})", String::from_utf8_lossy(&b)));
+                }
+            }
+            Ok(Err(_)) => {
+                if free_ok {
+                    report.violation("C10|stream-ok-but-buffered-render-fails", i, w(Fault::None), "render() failed while render_to succeeded".into());
+                }
+            }
+            Err(pi) => report.violation(&format!("C10|{}", pi.sig()), i, w(Fault::None), pi.describe()),
+        }
+        if wcalls > 0 {
+            c.nontriv.fetch_add(1, Ordering::Relaxed);
+        }
+        if i % 13 == 0 {
+            report.outcome(&(b.clone(), free_ok));
+        }
+        c.positions.fetch_add(wcalls as u64, Ordering::Relaxed);
+        // never-failing sinks that accept at most n bytes per call
+        if wcalls > 0 {
+            for n in [1usize, 2, 3] {
+                report.eval();
+                c.fault_runs.fetch_add(1, Ordering::Relaxed);
+                let f = Fault::Chunked(n);
+                let mut s = Sink::new(f);
+                match guard(|| tmpl.render_to(&mut s, global).map_err(|e| e.to_string())) {
+                    Err(pi) => report.violation(&format!("C10|{}", pi.sig()), i, w(f), pi.describe()),
+                    Ok(r) => {
+                        if r.is_ok() != free_ok || s.accepted != b {
+                            report.violation("C10|chunked-sink-differs-from-buffered-render", i, w(f), format!("a sink that never fails but accepts <= {n} bytes per call: result ok={} (fault-free ok={free_ok}); bytes {:?} vs {:?}", r.is_ok(), String::from_utf8_lossy(&s.accepted), String::from_utf8_lossy(&b)));
+                        }
+                    }
+                }
+            }
+        }
+        // every fault position
+        let mut prefix_len = 0usize;
+        for k in 1..=wcalls {
+            let len_k = offered[k - 1];
+            let mut faults = vec![Fault::FailAt(k), Fault::InterruptedOnce(k), Fault::ShortThenFail(k, 0)];
+            if all_offsets {
+                // every byte offset of the offered buffer, including those inside a character
+                for n in 1..len_k {
+                    faults.push(Fault::ShortThenFail(k, n));
+                    faults.push(Fault::ShortOnce(k, n));
+                }
+            } else if len_k > 1 {
+                faults.push(Fault::ShortOnce(k, 1));
+                faults.push(Fault::ShortThenFail(k, 1));
+                if len_k > 2 {
+                    faults.push(Fault::ShortThenFail(k, len_k - 1));
+                }
+            }
+            for f in faults {
+                report.eval();
+                c.fault_runs.fetch_add(1, Ordering::Relaxed);
+                let mut s = Sink::new(f);
+                let r = guard(|| tmpl.render_to(&mut s, global).map_err(|e| e.to_string()));
+                let r = match r {
+                    Err(pi) => {
+                        report.violation(&format!("C10|{}", pi.sig()), i, w(f), pi.describe());
+                        continue;
+                    }
+                    Ok(r) => r,
+                };
+                let kind = match f {
+                    Fault::FailAt(_) => "fail-at",
+                    Fault::ShortThenFail(..) => "short-then-fail",
+                    Fault::InterruptedOnce(_) => "interrupted-once",
+                    Fault::ShortOnce(..) => "short-once",
+                    Fault::Chunked(_) => "chunked",
+                    Fault::None => "none",
+                };
+                match f {
+                    Fault::InterruptedOnce(_) => {
+                        if r.is_ok() != free_ok || s.accepted != b {
+                            report.violation("C10|interrupted-write-not-retried", i, w(f), format!("result ok={} (fault-free ok={free_ok}); bytes {:?} vs {:?}", r.is_ok(), String::from_utf8_lossy(&s.accepted), String::from_utf8_lossy(&b)));
+                        }
+                    }
+                    Fault::ShortOnce(..) => {
+                        if r.is_ok() != free_ok || s.accepted != b {
+                            report.violation("C10|short-write-not-completed", i, w(f), format!("a sink that never fails but accepts a short count once: result ok={} (fault-free ok={free_ok}); bytes {:?} vs {:?}", r.is_ok(), String::from_utf8_lossy(&s.accepted), String::from_utf8_lossy(&b)));
+                        }
+                    }
+                    _ => {
+                        if r.is_ok() {
+                            report.violation(&format!("C10|sink-failure-swallowed|{kind}"), i, w(f), "render_to returned Ok although the sink failed".into());
+                        }
+                        if s.calls_after_failure > 0 {
+                            report.violation(&format!("C10|write-after-failure|{kind}"), i, w(f), format!("{} write call(s) after the failing one", s.calls_after_failure));
+                        }
+                        let want_len = match f {
+                            Fault::ShortThenFail(_, n) => prefix_len + n.min(len_k),
+                            _ => prefix_len,
+                        };
+                        if s.accepted.as_slice() != &b[..want_len.min(b.len())] || want_len > b.len() {
+                            report.violation(&format!("C10|accepted-bytes-not-a-prefix|{kind}"), i, w(f), format!("accepted {:?}, fault-free output {:?}", String::from_utf8_lossy(&s.accepted), String::from_utf8_lossy(&b)));
+                        }
+                    }
+                }
+            }
+            prefix_len += len_k;
+        }
+}
+
 fn grammar(max_n: usize) -> Grammar {
     let leaves = vec![
         text("t€"),
@@ -142,9 +280,8 @@ fn family(report: &Report, max_n: usize) {
     ];
     let globals: Vec<liquid::Object> = datas.iter().map(|d| d.to_object()).collect();
     let name = format!("fault-enumeration/N<={max_n}");
-    let fault_runs = AtomicU64::new(0);
-    let positions = AtomicU64::new(0);
-    let nontriv = AtomicU64::new(0);
+    let c = Counters { fault_runs: AtomicU64::new(0), positions: AtomicU64::new(0), nontriv: AtomicU64::new(0) };
+    let (fault_runs, positions, nontriv) = (&c.fault_runs, &c.positions, &c.nontriv);
     par_range(
         report,
         &name,
@@ -157,125 +294,7 @@ fn family(report: &Report, max_n: usize) {
                 return;
             };
             for (di, d) in datas.iter().enumerate() {
-                let w = |fault: Fault| json!({"kind":"fault","template":textp,"data":d.to_json(),"partials":partials,"fault":format!("{fault:?}")});
-                // fault-free streaming run
-                let mut sink = Sink::new(Fault::None);
-                let r = guard(|| tmpl.render_to(&mut sink, &globals[di]).map_err(|e| e.to_string()));
-                report.eval();
-                let free_ok = match r {
-                    Err(pi) => {
-                        report.violation(&format!("C10|{}", pi.sig()), i, w(Fault::None), pi.describe());
-                        continue;
-                    }
-                    Ok(r) => r.is_ok(),
-                };
-                let b = sink.accepted.clone();
-                let offered = sink.offered.clone();
-                let wcalls = sink.calls;
-                if std::str::from_utf8(&b).is_err() {
-                    report.violation("C10|streamed-bytes-not-utf8", i, w(Fault::None), "bytes written are not UTF-8".into());
-                }
-                // buffering render must agree with the stream
-                let rs = guard(|| tmpl.render(&globals[di]).map_err(|e| e.to_string()));
-                match rs {
-                    Ok(Ok(s)) => {
-                        if !free_ok || s.as_bytes() != b.as_slice() {
-                            report.violation("C10|stream-differs-from-buffered-render", i, w(Fault::None), format!("render() = {s:?}, streamed = {:?} (ok={free_ok})", String::from_utf8_lossy(&b)));
-                        }
-                    }
-                    Ok(Err(_)) => {
-                        if free_ok {
-                            report.violation("C10|stream-ok-but-buffered-render-fails", i, w(Fault::None), "render() failed while render_to succeeded".into());
-                        }
-                    }
-                    Err(pi) => report.violation(&format!("C10|{}", pi.sig()), i, w(Fault::None), pi.describe()),
-                }
-                if wcalls > 0 {
-                    nontriv.fetch_add(1, Ordering::Relaxed);
-                }
-                if i % 13 == 0 {
-                    report.outcome(&(b.clone(), free_ok));
-                }
-                positions.fetch_add(wcalls as u64, Ordering::Relaxed);
-                // never-failing sinks that accept at most n bytes per call
-                if wcalls > 0 {
-                    for n in [1usize, 2, 3] {
-                        report.eval();
-                        fault_runs.fetch_add(1, Ordering::Relaxed);
-                        let f = Fault::Chunked(n);
-                        let mut s = Sink::new(f);
-                        match guard(|| tmpl.render_to(&mut s, &globals[di]).map_err(|e| e.to_string())) {
-                            Err(pi) => report.violation(&format!("C10|{}", pi.sig()), i, w(f), pi.describe()),
-                            Ok(r) => {
-                                if r.is_ok() != free_ok || s.accepted != b {
-                                    report.violation("C10|chunked-sink-differs-from-buffered-render", i, w(f), format!("a sink that never fails but accepts <= {n} bytes per call: result ok={} (fault-free ok={free_ok}); bytes {:?} vs {:?}", r.is_ok(), String::from_utf8_lossy(&s.accepted), String::from_utf8_lossy(&b)));
-                                }
-                            }
-                        }
-                    }
-                }
-                // every fault position
-                let mut prefix_len = 0usize;
-                for k in 1..=wcalls {
-                    let len_k = offered[k - 1];
-                    let mut faults = vec![Fault::FailAt(k), Fault::InterruptedOnce(k), Fault::ShortThenFail(k, 0)];
-                    if len_k > 1 {
-                        faults.push(Fault::ShortOnce(k, 1));
-                        faults.push(Fault::ShortThenFail(k, 1));
-                        if len_k > 2 {
-                            faults.push(Fault::ShortThenFail(k, len_k - 1));
-                        }
-                    }
-                    for f in faults {
-                        report.eval();
-                        fault_runs.fetch_add(1, Ordering::Relaxed);
-                        let mut s = Sink::new(f);
-                        let r = guard(|| tmpl.render_to(&mut s, &globals[di]).map_err(|e| e.to_string()));
-                        let r = match r {
-                            Err(pi) => {
-                                report.violation(&format!("C10|{}", pi.sig()), i, w(f), pi.describe());
-                                continue;
-                            }
-                            Ok(r) => r,
-                        };
-                        let kind = match f {
-                            Fault::FailAt(_) => "fail-at",
-                            Fault::ShortThenFail(..) => "short-then-fail",
-                            Fault::InterruptedOnce(_) => "interrupted-once",
-                            Fault::ShortOnce(..) => "short-once",
-                            Fault::Chunked(_) => "chunked",
-                            Fault::None => "none",
-                        };
-                        match f {
-                            Fault::InterruptedOnce(_) => {
-                                if r.is_ok() != free_ok || s.accepted != b {
-                                    report.violation("C10|interrupted-write-not-retried", i, w(f), format!("result ok={} (fault-free ok={free_ok}); bytes {:?} vs {:?}", r.is_ok(), String::from_utf8_lossy(&s.accepted), String::from_utf8_lossy(&b)));
-                                }
-                            }
-                            Fault::ShortOnce(..) => {
-                                if r.is_ok() != free_ok || s.accepted != b {
-                                    report.violation("C10|short-write-not-completed", i, w(f), format!("a sink that never fails but accepts a short count once: result ok={} (fault-free ok={free_ok}); bytes {:?} vs {:?}", r.is_ok(), String::from_utf8_lossy(&s.accepted), String::from_utf8_lossy(&b)));
-                                }
-                            }
-                            _ => {
-                                if r.is_ok() {
-                                    report.violation(&format!("C10|sink-failure-swallowed|{kind}"), i, w(f), "render_to returned Ok although the sink failed".into());
-                                }
-                                if s.calls_after_failure > 0 {
-                                    report.violation(&format!("C10|write-after-failure|{kind}"), i, w(f), format!("{} write call(s) after the failing one", s.calls_after_failure));
-                                }
-                                let want_len = match f {
-                                    Fault::ShortThenFail(_, n) => prefix_len + n.min(len_k),
-                                    _ => prefix_len,
-                                };
-                                if s.accepted.as_slice() != &b[..want_len.min(b.len())] || want_len > b.len() {
-                                    report.violation(&format!("C10|accepted-bytes-not-a-prefix|{kind}"), i, w(f), format!("accepted {:?}, fault-free output {:?}", String::from_utf8_lossy(&s.accepted), String::from_utf8_lossy(&b)));
-                                }
-                            }
-                        }
-                    }
-                    prefix_len += len_k;
-                }
+                enumerate_faults(report, &c, i, &textp, &tmpl, d, &globals[di], &partials, false);
             }
         },
         |i| json!({"kind":"fault","template":print(&g.unrank_upto(i, max_n))}),
@@ -293,10 +312,66 @@ fn family(report: &Report, max_n: usize) {
     });
 }
 
+/// Long literal and data text with multi-byte characters at every alignment.  The generated
+/// programs above write short pieces; anything the engine does with the *bytes* of a piece on the
+/// failure path (an excerpt for the error, a retry from an offset, a partial copy) needs a piece
+/// that is long and whose character boundaries fall at every residue.  Every piece is
+/// `"a" * s + c * n` for 2-, 3- and 4-byte `c` and s = 0..3, and for every write call the sink
+/// fails at the call, after **every** byte offset of the offered buffer, or accepts a short count
+/// at every offset once.
+fn long_text(report: &Report, reps: usize) {
+    let c = Counters { fault_runs: AtomicU64::new(0), positions: AtomicU64::new(0), nontriv: AtomicU64::new(0) };
+    let mut n_templates = 0u64;
+    let mut idx = 0u64;
+    for ch in ["é", "€", "👍"] {
+        for shift in 0..4usize {
+            let piece = format!("{}{}", "a".repeat(shift), ch.repeat(reps));
+            let partials = vec![("lp".to_string(), format!("{piece}{{{{ v }}}}"))];
+            let parser = cfgs::build(Config::Stdlib, Policy::Eager, &partials).expect("parser");
+            let data = V::obj(&[("v", V::s(&piece)), ("arr", V::Arr(vec![V::s(&piece), V::s("z")]))]);
+            let global = data.to_object();
+            let templates = [
+                piece.clone(),
+                format!("{{{{ 'x' }}}}{piece}{{{{ 'y' }}}}{piece}"),
+                format!("{{% raw %}}{piece}{{% endraw %}}"),
+                "{{ v }}|{{ v | append: v }}".to_string(),
+                format!("{{% ifchanged %}}{piece}{{% endifchanged %}}{{% ifchanged %}}{{{{ v }}}}{{% endifchanged %}}"),
+                format!("{{% for i in (1..2) %}}{piece}{{% endfor %}}"),
+                format!("{{% cycle '{piece}', 'b' %}}{{% cycle v, 'b' %}}"),
+                format!("{{% tablerow i in arr cols:1 %}}{piece}{{{{ i }}}}{{% endtablerow %}}"),
+                "{% include 'lp' %}{% render 'lp', v: v %}{% render 'lp' for arr as v %}".to_string(),
+                format!("{{% capture z %}}{piece}{{% endcapture %}}{{{{ z }}}}{{{{ arr }}}}"),
+                format!("{{% if v %}}{piece}{{% endif %}}{{% case v %}}{{% when v %}}{piece}{{% endcase %}}{{% unless nope %}}{{{{ v }}}}{{% endunless %}}"),
+                format!("{piece}{{{{ undefined_var }}}}{piece}"),
+            ];
+            for t in templates {
+                idx += 1;
+                n_templates += 1;
+                let Ok(Ok(tmpl)) = cfgs::parse_guarded(&parser, &t) else {
+                    report.violation("C10|well-formed-program-rejected", idx, json!({"kind":"fault","template":t}), "long-text template does not parse".into());
+                    continue;
+                };
+                enumerate_faults(report, &c, idx, &t, &tmpl, &data, &global, &partials, true);
+            }
+        }
+    }
+    report.extra("long_text_write_positions", json!(c.positions.load(Ordering::Relaxed)));
+    report.extra("long_text_fault_runs", json!(c.fault_runs.load(Ordering::Relaxed)));
+    report.nontrivial.fetch_add(c.nontriv.load(Ordering::Relaxed), Ordering::Relaxed);
+    report.family(FamilyStat {
+        name: format!("long non-ASCII pieces/reps={reps}"),
+        cases: n_templates,
+        nontrivial: c.nontriv.load(Ordering::Relaxed),
+        skipped: 0,
+        note: format!("12 constructs x pieces 'a'*s + c*{reps} (c of 2/3/4 bytes, s=0..3) as literal text, raw body, data string, cycle value, partial text; write positions={} fault runs={} (fail at the call, after every byte offset, short count at every byte offset)", c.positions.load(Ordering::Relaxed), c.fault_runs.load(Ordering::Relaxed)),
+    });
+}
+
 pub fn run(tier: Tier) -> i32 {
     let report = Report::new("C10", tier, "fault_enumeration");
-    report.set_rule("every program with 1..N nodes over the writing constructs (text, output, raw, cycle, increment/decrement, include, render, render-for, failing output, break; nested in for/if/case/tablerow/ifchanged/capture) x 3 data objects is streamed into a counting sink; then for EVERY write call k of that run the sink fails at k, accepts a short count (0, 1, len-1) then fails, reports EINTR once, or accepts a short count once and never fails; plus never-failing sinks accepting at most 1/2/3 bytes per call; evaluations = fault-free + faulted runs; non-trivial = (program, data) pairs with at least one write call");
+    report.set_rule("every program with 1..N nodes over the writing constructs (text, output, raw, cycle, increment/decrement, include, render, render-for, failing output, break; nested in for/if/case/tablerow/ifchanged/capture) x 3 data objects is streamed into a counting sink; then for EVERY write call k of that run the sink fails at k, accepts a short count (0, 1, len-1) then fails, reports EINTR once, or accepts a short count once and never fails; plus never-failing sinks accepting at most 1/2/3 bytes per call; plus 12 constructs over long non-ASCII pieces at every alignment with a fault after EVERY byte offset of every write; evaluations = fault-free + faulted runs; non-trivial = (program, data) pairs with at least one write call");
     report.assume("std::io::Write::write_all semantics (retry on Interrupted, WriteZero on Ok(0))");
     family(&report, if tier.thorough() { 4 } else { 3 });
+    long_text(&report, if tier.thorough() { 64 } else { 24 });
     report.finish()
 }
